@@ -1232,6 +1232,10 @@ def check_pipeline_run(cfg):
         args, doc = build_dataset(cfg["ds_seed"], cfg["mode"], os.path.join(d, "data"))
         out = os.path.join(d, "out")
         args = ["--threads", str(cfg["threads"]), "--counts_format", cfg["fmt"]] + args + (["--count_exons"] if cfg.get("exons") else [])
+        if cfg.get("quant"):
+            # gene and transcript quantification strategies that differ in whether ambiguous reads are admitted: every grouped table must
+            # follow the strategy of ITS level (seed C02_a4: the grouped transcript-model counter was handed the gene strategy)
+            args += ["--transcript_quantification", cfg["quant"][0], "--gene_quantification", cfg["quant"][1]]
         rc, log = P.run_isoquant(out, args, env={"PYTHONHASHSEED": cfg["hashseed"]}, timeout=900)
         ungroupable = sorted(r for r, g in doc.items() if g == "NA")
         if rc != 0:
@@ -1537,6 +1541,10 @@ def pipeline_configs(ctx):
     for m in (extra_modes[:9] if ctx.tier == "quick" else extra_modes * 4 + modes * 6):
         cfgs.append({"mode": m, "fmt": rng.choice(G.FORMATS), "threads": rng.choice([1, 2, 3]),
                      "hashseed": str(rng.randrange(1000)), "ds_seed": rng.randrange(10 ** 6), "exons": rng.random() < 0.35})
+    for q in ([("with_ambiguous", "unique_only"), ("unique_only", "with_ambiguous")] if ctx.tier == "quick" else
+              [("with_ambiguous", "unique_only"), ("unique_only", "with_ambiguous"), ("all", "unique_only"), ("unique_only", "all")] * 3):
+        cfgs.append({"mode": rng.choice(["tag:CB", "file_name"]), "fmt": rng.choice(G.FORMATS), "threads": rng.choice([1, 2]),
+                     "hashseed": str(rng.randrange(1000)), "ds_seed": rng.randrange(10 ** 6), "exons": False, "quant": list(q)})
     return cfgs
 
 
